@@ -35,12 +35,25 @@ def corpus():
          'EpSpK', 'EmSpK', 'Ep',          # empty producers never cause a call
          'StK', 'SmStK', 'SmSt',          # exact ties (run, not judged)
          'SmWK', 'SpSWK']                 # forced flush
-    return [c for c in (B.letters_case(T, w) for T in B.TIMEOUTS for w in W) if c]
+    return [c for c in (B.letters_case(T, w) for T in B.TIMEOUTS for w in W + retry_words()) if c]
+
+
+def retry_words():
+    """1..7 consecutive failed calls, then: the retry of the kept arguments alone / a newcomer / a burst of two —
+    each time the call must start ONE timeout after the later of the last failure and the last arrival"""
+    out = []
+    for nf in range(1, 8):
+        fails = 'Sp' + 'Fp' * (nf - 1) + 'F'
+        for after in ('pK', 'PK', 'hSpK', 'SmSpK', 'mSmSpK', 'pKSpK'):
+            out.append(fails + after)
+    return out
 
 
 def gen_exhaustive(tier, seed):
     out = B.word_cases(ALPHA, 5 if tier == 'quick' else 6)
     out += B.grid_cases(max_subs=4 if tier == 'quick' else 5, kinds='SLSI')
+    # the grid again with the function failing twice / three times in a row before it succeeds
+    out += B.grid_cases(max_subs=3 if tier == 'quick' else 4, kinds='SLSI', modes=['FpFpK', 'FpFpFpK', 'FmSpFpK'])
     return out
 
 
@@ -65,10 +78,11 @@ RULE = ('cases = (timeout T in {8,100,1024} ticks, list of external events) run 
         'iterator incl. failing part-way / await_ / amap with scripted yields, failure, end), Advance dt, '
         'wait(cancel=True/False), FnOk / FnFail (the harness-owned buffered function parks until told), Shutdown; '
         'observation per event = every FnStart (copy of the set, tick), FnEnd (ok, set re-read), WaitRet, DaemonEnded. '
-        'corpus: named debounce scenarios x 3 timeouts; exhaustive layer: every word of <=5 (quick) / <=6 (thorough) letters over '
+        'corpus: named debounce scenarios and 1..7 consecutive failed calls followed by the bare retry / a newcomer / a burst of two '
+        '(42 words) x 3 timeouts; exhaustive layer: every word of <=5 (quick) / <=6 (thorough) letters over '
         '{plain, list, empty list, Advance T-1 / T+1 / 2T+1, FnOk, FnFail, wait(cancel=False)} + the arrival grid '
         '(<=4 / <=5 submissions, gaps {0,T-1,T+1,2T+1}, 7 response modes of the function incl. durations 0 / <T / >T and '
-        'fail-then-ok, 3 timeouts); random layer: programs up to 30 events incl. exact-tie gaps (T), iterators, duplicates, '
+        'fail-then-ok, 3 timeouts; again with <=3 / <=4 submissions and the function failing two / three times in a row); random layer: programs up to 30 events incl. exact-tie gaps (T), iterators, duplicates, '
         'awaitables and async iterables.  Every program without Shutdown ends with the settle tail [FnOk; Advance T+1; FnOk].  '
         'non-trivial = at least one call started, at least two submissions, no exact timer tie (decided by '
         'Case_C08.nontrivial inside Coq); distinct = distinct (case, trace) pairs among those')
@@ -94,7 +108,9 @@ LEVEL_TEXT = ('BufferAsyncCalls is modelled step for step as an executable macro
               'while it lasts and exactly one call, with the whole burst, exactly timeout after the last arrival).  Tied to /repo '
               'by running the real class under a virtual-time loop on the enumerated / random event lists and comparing every '
               'observation with the model inside Coq (vm_compute); the monitor Case_C08.ok re-decides serial / non-empty / '
-              'not-early / exact-burst on the implementation trace.  monitor_complete: for EVERY timeout and event list the whole '
+              'not-early / exact-burst / not-late (a call that is not a forced flush starts at most one timeout after the later of the latest '
+              'submission and the end of the previous call: the retry after any number of failed calls, and a burst arriving after failed '
+              'calls, wait ONE timeout) on the implementation trace.  monitor_complete: for EVERY timeout and event list the whole '
               'monitor (serial part and timed walk) accepts the model\'s own trace, so a rejection always means the '
               'implementation differs from the model; serial_monitor_sound: acceptance by the serial part implies the readable '
               'statement on any observed trace.')
